@@ -93,8 +93,34 @@ def check_system(ctx, case, name, A, B, impl_X, what):
                 ctx.disagree('Sv.solveLoop (Real) does not dominate the Kleene partial sums', dict(case, column=col), [str(v) for v in x_model], [str(v) for v in other])
             want = x_model
         if not cmp_vec(impl, want, name):
+            tags = ['solve', name, what]
+            if name == 'real' and _singular(A) and all(isinstance(v, float) and v > 1e9 and math.isfinite(v) for v, w_ in zip(impl, want)
+                                                        if isinstance(w_, float) and w_ == math.inf):
+                # I - A is EXACTLY singular (decided in rational arithmetic) and the implementation returned huge finite values where
+                # the least solution is infinite: the LU fast path of RealSemiring.solve_thunks accepted a meaningless result
+                tags += ['I-minus-A-singular', 'huge-finite-instead-of-inf']
             ctx.fail(f'{what} ({name}) does not return the least solution of x = A x + b', dict(case, column=col), impl, [str(v) for v in want],
-                     tags=['solve', name, what])
+                     tags=tags)
+
+
+def _singular(A):
+    """is I - A exactly singular?  (finite entries; Gaussian elimination over the rationals)"""
+    from fractions import Fraction
+    try:
+        n = A.shape[0]
+        M = [[Fraction(float(i == j)) - Fraction(float(A[i, j])) for j in range(n)] for i in range(n)]
+    except (ValueError, OverflowError):
+        return False
+    for c in range(n):
+        piv = next((r for r in range(c, n) if M[r][c] != 0), None)
+        if piv is None:
+            return True
+        M[c], M[piv] = M[piv], M[c]
+        for r in range(c + 1, n):
+            f = M[r][c] / M[c][c]
+            if f:
+                M[r] = [a - f * b for a, b in zip(M[r], M[c])]
+    return False
 
 
 def share_axes(rng, pa, pb):
